@@ -3,7 +3,6 @@
 package sut
 
 import (
-	"bufio"
 	"encoding/json"
 	"fmt"
 	"io"
@@ -153,6 +152,7 @@ type LabOpts struct {
 	Env               []string
 	Race              bool
 	Name              string
+	VLimitKB          int // address-space limit of the child (plain builds only; 0 = none)
 }
 
 var listenRe = regexp.MustCompile(`LISTEN addr=(\S+) admin=(\S+)`)
@@ -185,14 +185,17 @@ func (w *Workspace) StartLab(bin string, o LabOpts) (*Proc, error) {
 	}
 	p := &Proc{LogPath: f.Name(), done: make(chan struct{}), HTTP: &http.Client{Timeout: 30 * time.Second}}
 	cmd := exec.Command(bin, args...)
+	if o.VLimitKB > 0 && !o.Race {
+		sh := fmt.Sprintf("ulimit -v %d; exec \"$0\" \"$@\"", o.VLimitKB)
+		cmd = exec.Command("/bin/sh", append([]string{"-c", sh, bin}, args...)...)
+	}
 	cmd.Env = append(os.Environ(), "GOMEMLIMIT=4GiB", "GOTRACEBACK=all")
 	if o.Race {
 		p.RaceLog = f.Name() + ".race"
 		cmd.Env = append(cmd.Env, "GORACE=halt_on_error=0 log_path="+p.RaceLog)
 	}
 	cmd.Env = append(cmd.Env, o.Env...)
-	pr, pw := io.Pipe()
-	cmd.Stdout = io.MultiWriter(f, pw)
+	cmd.Stdout = f
 	cmd.Stderr = f
 	if err := cmd.Start(); err != nil {
 		return nil, err
@@ -200,30 +203,31 @@ func (w *Workspace) StartLab(bin string, o LabOpts) (*Proc, error) {
 	p.Cmd = cmd
 	go func() {
 		p.waitErr = cmd.Wait()
-		pw.Close()
 		f.Close()
 		close(p.done)
 	}()
-	got := make(chan [2]string, 1)
-	go func() {
-		sc := bufio.NewScanner(pr)
-		sent := false
-		for sc.Scan() {
-			if m := listenRe.FindStringSubmatch(sc.Text()); m != nil && !sent {
-				got <- [2]string{m[1], m[2]}
-				sent = true
-			}
-		}
-	}()
-	select {
-	case a := <-got:
-		p.Addr, p.Admin = a[0], a[1]
-	case <-p.done:
+	// the child prints its addresses first: poll its log for them
+	deadline := time.Now().Add(30 * time.Second)
+	for p.Addr == "" {
 		b, _ := os.ReadFile(p.LogPath)
-		return nil, fmt.Errorf("SUT exited at start: %v\n%s", p.waitErr, b)
-	case <-time.After(30 * time.Second):
-		p.Kill()
-		return nil, fmt.Errorf("SUT did not print its addresses")
+		if len(b) > 4096 {
+			b = b[:4096]
+		}
+		if m := listenRe.FindSubmatch(b); m != nil {
+			p.Addr, p.Admin = string(m[1]), string(m[2])
+			break
+		}
+		select {
+		case <-p.done:
+			b, _ := os.ReadFile(p.LogPath)
+			return nil, fmt.Errorf("SUT exited at start: %v\n%s", p.waitErr, b)
+		default:
+		}
+		if time.Now().After(deadline) {
+			p.Kill()
+			return nil, fmt.Errorf("SUT did not print its addresses")
+		}
+		time.Sleep(2 * time.Millisecond)
 	}
 	switch o.RT {
 	case "jitter":
